@@ -236,7 +236,7 @@ func (c *ClientConn) QueryFrame(ctx context.Context, frm *frame.Frame) (*ResultS
 	case *message.RowsResult:
 		return NewResultSet(msg, response.Header.Version), nil
 	case *message.VoidResult, *message.PreparedResult:
-		return nil, nil // TODO: Make empty result set
+		return NewResultSet(&message.RowsResult{Metadata: &message.RowsMetadata{}}, response.Header.Version), nil
 	case message.Error:
 		return nil, &CqlError{Message: msg}
 	default:
